@@ -514,6 +514,14 @@ impl VerifEnv for SimEnv {
     }
     fn read(&self, path: &Path) -> io::Result<Vec<u8>> {
         self.with(|w| {
+            // a read that fails anyway (e.g. the probe for xx.zip in an unzipped deployment) is not a place for an
+            // injected error: the library's behaviour would be the same, and counting it would raise false alarms
+            if w.fs.read(path).is_err() {
+                let err = w.fs.read(path).err().unwrap();
+                let fault = w.fs.removed_fault(path);
+                w.seam(self.session, SeamRec { kind: SeamKind::Read, path: path.to_path_buf(), ok: false, fault, content_id: 0, injected: None });
+                return Err(err);
+            }
             w.calls[self.session].reads += 1;
             if let Some(inj) = w.injection_for(self.session, false, path) {
                 let err = match inj {
